@@ -228,3 +228,20 @@ PROPS["C14"] = dict(
     require_tags={"quick": ["reuse", "eviction", "headers>64", "headers>1024", "unlink", "zero-area", "window", "below-threshold", "above-threshold"],
                   "thorough": ["reuse", "eviction", "headers>64", "headers>1024", "unlink", "zero-area", "window", "below-threshold", "above-threshold"]},
 )
+
+PROPS["C20"] = dict(
+    level="fault_enumeration",
+    rule="scenario = one op of the table (every multiplication route, elimination, factorisation, TRSM, inversion, solve, kernel, data movement, permutation "
+         "application, observers) or one of: mzd_init, 140 x mzd_init_window, init/free churn, mzp init/copy/window, PNG write, PNG read, JCF read, from_str, "
+         "DJB compile with growing arrays; a dry-run child counts the N allocation requests the library makes inside the scenario (interposer armed only there); "
+         "then for EVERY i = 1..N a fresh forked child runs the same scenario with request i returning NULL/ENOMEM; oracle: SIGABRT, a library diagnostic on stderr "
+         "('... returned NULL', 'malloc failed', 'realloc failed'), no sanitizer report, no SIGSEGV, no normal return, no hang; evaluations counts children; "
+         "distinct = (build, scenario, number of requests bucket); non-trivial = scenario makes at least one allocation request",
+    assumptions=["allocator interposer (ld --wrap on the library objects only) sees every allocation request of m4ri itself; libpng/libc internal allocations are not injected",
+                 "a request satisfied from the library's own block cache is not an allocation request"],
+    stages=[
+        S("small-asan", "allocfail", ["--fam", ALLFAM, "--dir", "@TMP@"], (190, 110), (1900, 600), timeout=900),
+        S("small-plain", "allocfail", ["--fam", ALLFAM, "--dir", "@TMP@"], (95, 110), (950, 500), timeout=900),
+        S("small-nosse-ts-asan", "allocfail", ["--fam", ALLFAM, "--dir", "@TMP@"], (95, 90), (950, 400), timeout=900),
+    ],
+)
